@@ -305,7 +305,8 @@ func (d *TTMLInDuration) UnmarshalText(i []byte) (err error) {
 	}
 
 	// Extract clock time frames
-	if indexes := ttmlRegexpClockTimeFrames.FindStringIndex(text); indexes != nil {
+	// Frames are the fourth field of a clock time: "hh:mm:ss" has no frames, its last field is made of seconds
+	if indexes := ttmlRegexpClockTimeFrames.FindStringIndex(text); indexes != nil && strings.Count(text, ":") == 3 {
 		// Parse frames
 		var s = text[indexes[0]+1 : indexes[1]]
 		if d.frames, err = strconv.Atoi(s); err != nil {
